@@ -2009,7 +2009,13 @@ FROM (
             )
 
         if not measure_names:
-            return f"SELECT * FROM {table_src}"
+            # nothing to unpivot: no datapoint, with the columns the result structure declares
+            # (the new identifier and the new measure, typed String in the absence of measures)
+            empty_cols: List[str] = [quote_name(i) for i in id_names]
+            empty_cols.append(f"CAST(NULL AS VARCHAR) AS {quote_name(new_id_name)}")
+            empty_cols.append(f"CAST(NULL AS VARCHAR) AS {quote_name(new_measure_name)}")
+            empty_cols.extend(quote_name(v) for v in viral_names)
+            return f"SELECT {', '.join(empty_cols)} FROM {table_src} WHERE FALSE"
 
         parts: List[str] = []
         for measure in measure_names:
